@@ -428,6 +428,10 @@ func repoGarbageCollect(repo Repo, conf config.Config, index types.Index, locked
 				if _, err := index.GetDesc(dig.String()); err == nil && !*conf.Storage.GC.Untagged {
 					keep = true
 				}
+				// always keep new entries, as below
+				if meta, err := repo.blobMeta(d.Digest, locked); err == nil && conf.Storage.GC.GracePeriod >= 0 && meta.mod.After(cutoff) {
+					keep = true
+				}
 			} else if !*conf.Storage.GC.ReferrersDangling {
 				// keep if dangling aren't GCed
 				keep = true
